@@ -278,9 +278,9 @@ Fixpoint find_slot (l : list slot) (idx : Z) (ch : Z) : option Z :=
   | [] => None
   | x :: t => if s_chan x =? ch then Some idx else find_slot t (idx + 1) ch
   end.
-(* supla_esp_countdown_timer_countdown.  evalcmd = true is the proposed repair: a new command evaluates the
-   running slots (timer callback body) instead of only re-arming the timer *)
-Definition countdown (evalcmd : bool) (c : cfg) (ms gpio ch target sender : Z) (s : st) : st :=
+(* supla_esp_countdown_timer_countdown.  evalcmd = true is the repair: a new command first evaluates the running
+   slots (timer callback body), then sets up its own slot and re-arms the timer *)
+Definition countdown_arm_slot (c : cfg) (ms gpio ch target sender : Z) (s : st) : st :=
   let oi := match find_slot (slots s) 0 ch with Some i => Some i | None => find_slot (slots s) 0 255 end in
   match oi with
   | None => s
@@ -289,9 +289,11 @@ Definition countdown (evalcmd : bool) (c : cfg) (ms gpio ch target sender : Z) (
     let s2 := set_slots (upd (slots s1) (Z.to_nat i)
        {| s_chan := ch; s_left := ms; s_last := u; s_gpio := gpio; s_target := target; s_sender := sender;
           g_t0 := now s; g_dur := ms; g_u0 := u; g_tl := now s |}) (emit (GArm (now s) ch ms target) s1) in
-    let s3 := t2_set ch ms s2 in
-    if evalcmd then cd_cb c (if t_on (tcd s3) then t_due (tcd s3) else now s3) s3 else startstop s3
+    startstop (t2_set ch ms s2)
   end.
+Definition countdown (evalcmd : bool) (c : cfg) (ms gpio ch target sender : Z) (s : st) : st :=
+  countdown_arm_slot c ms gpio ch target sender
+    (if evalcmd then cd_cb c (if t_on (tcd s) then t_due (tcd s) else now s) s else s).
 (* supla_esp_countdown_timer_disarm + devconn's on_disarm callback *)
 Definition disarm (c : cfg) (ch : Z) (s : st) : st :=
   match find_slot (slots s) 0 ch with
@@ -465,7 +467,7 @@ Definition run_from (e : bool) (c : cfg) (s : st) (evs : list ev) : st := fold_l
 Definition run (e : bool) (c : cfg) (evs : list ev) : list out := rev (outs (run_from e c (start e c) evs)).
 
 (* the tree decides which variant the correspondence run uses (generated by pattern from countdown()) *)
-Definition CURRENT_EVALCMD : bool := EVAL_ON_COMMAND =? 1.
+Definition CURRENT_EVALCMD : bool := EVAL_ON_COMMAND =? 2.
 
 (* ---------- wire interface ---------- *)
 Fixpoint take_relays (n : nat) (l : list Z) : list relay * list Z :=
